@@ -391,7 +391,18 @@ def translate_expression(expr, env: Env) -> TExp:  # noqa: C901
             # formal bit k <- actual bit k, for every formal, simultaneously
             subs = {}
             for a, fa in zip(args, def_f[1]):
-                for fbit, abit in zip(fa.bitvec, flat(a[1])):
+                abits = flat(a[1])
+                if len(abits) != len(fa.bitvec):
+                    # a narrower Qint actual is zero extended to the width of the formal
+                    if (
+                        len(abits) < len(fa.bitvec)
+                        and getattr(a[0], "__name__", "")[:4] == "Qint"
+                        and getattr(fa.ttype, "__name__", "")[:4] == "Qint"
+                    ):
+                        abits = abits + [False] * (len(fa.bitvec) - len(abits))
+                    else:
+                        raise TypeErrorException(a[0], fa.ttype)
+                for fbit, abit in zip(fa.bitvec, abits):
                     subs[Symbol(fbit)] = abit
 
             n_exps = []
